@@ -121,5 +121,39 @@ def Rule.Valid (r : Rule) : Prop :=
   ∀ (ρ : String → Env → F), (∀ c ∈ r.conds ++ r.implicit, FreeIn ρ c.1 c.2) →
     ∀ env, evalP ρ r.lhs env = evalP ρ r.rhs env
 
+/-! ### instances of patterns as (named) terms of the main language -/
+
+/-- the placeholder an `AppliedId` field of a term node carries (children are separate) -/
+def ph : AppId := { id := 0, m := [] }
+
+/-- the instance of a pattern under `σ` (pattern variables ↦ named terms), pattern slot `$x` ↦ the
+slot `code x`; variant indices as in `/verif/harness/src/langs.rs: Main`.  The substitution form `b[(var $x) := e]` is the naive
+replacement of `(var $x)` subterms, defined (`some`) only when it is hygienic (`Eval.substOK`). -/
+def instN (code : String → Nat) (σ : String → Term) : P → Option Term
+  | .pv a => some (σ a)
+  | .var x => some (.mk { v := 2, fields := [.slot (code x)] } [])
+  | .num n => some (.mk { v := 15, fields := [.lit (toString n)] } [])
+  | .add a b => match instN code σ a, instN code σ b with
+    | some ta, some tb => some (.mk { v := 4, fields := [.app ph, .app ph] } [ta, tb])
+    | _, _ => none
+  | .mul a b => match instN code σ a, instN code σ b with
+    | some ta, some tb => some (.mk { v := 5, fields := [.app ph, .app ph] } [ta, tb])
+    | _, _ => none
+  | .sum x b => match instN code σ b with
+    | some tb => some (.mk { v := 6, fields := [.bind (code x) (.app ph)] } [tb])
+    | none => none
+  | .let_ x b e => match instN code σ b, instN code σ e with
+    | some tb, some te => some (.mk { v := 3, fields := [.bind (code x) (.app ph), .app ph] } [tb, te])
+    | _, _ => none
+  | .subst b x e => match instN code σ b, instN code σ e with
+    | some tb, some te => if substOK (code x) (occN te) tb then some (substN (code x) te tb) else none
+    | _, _ => none
+  | .h a => match instN code σ a with
+    | some ta => some (.mk { v := 13, fields := [.app ph] } [ta])
+    | none => none
+  | .k a b => match instN code σ a, instN code σ b with
+    | some ta, some tb => some (.mk { v := 14, fields := [.app ph, .app ph] } [ta, tb])
+    | _, _ => none
+
 end Rules
 end SV
